@@ -58,3 +58,8 @@ def run(ctx):
     ctx.assumptions = ["IDs restricted to int/str/tuple-of-atoms/None; bool/float IDs outside the model",
                        "set iteration order and random.sample results are passed to the model as recorded oracles"]
     return finish(ctx, trusted_base=TRUSTED_COMMON)
+
+
+def replay(ctx, path):
+    from ..sm import replay_sm
+    return replay_sm(ctx, M, "HG", FIELDS, pred, path, derive=derive)
